@@ -15,8 +15,16 @@
 (* is the updated one, whether or not the pull also moved the default       *)
 (* branch.                                                                  *)
 (*                                                                         *)
-(* Deviation "id-with-head" (seeded change C12c): the canonical identity    *)
-(* reference is only advanced by a pull that also moves the default branch. *)
+(* The seed's own policy is part of the decision as well: a repository it   *)
+(* has blocked explicitly is never served (the seed's default policy allows *)
+(* everything here, as on a permissive seed).  The policy is looked up in a *)
+(* database that another connection may hold locked for longer than the     *)
+(* reader waits: the lookup then FAILS, and a failed lookup must refuse.    *)
+(*                                                                         *)
+(* Deviations: "id-with-head" (seeded change C12c): the canonical identity  *)
+(* reference is only advanced by a pull that also moves the default branch; *)
+(* "fail-open" (the code as found, fixed): a policy lookup that fails is    *)
+(* taken for "no policy", i.e. the permissive default.                      *)
 (***************************************************************************)
 EXTENDS Integers, Sequences, FiniteSets, TLC
 
@@ -29,13 +37,14 @@ VARIABLES odoc,     \* the owner's current visibility
           sdoc,     \* the visibility in the document at the seed's canonical refs/rad/id
           shead,    \* the seed's default branch
           pulled,   \* ghost: the owner's visibility when the seed last pulled
+          blocked,  \* the seed has blocked the repository explicitly
           last,     \* the last request's outcome: "none" | "served" | "refused"
           hist
-vars == <<odoc, ohead, sdoc, shead, pulled, last, hist>>
-view == <<odoc, ohead, sdoc, shead, pulled, last>>
+vars == <<odoc, ohead, sdoc, shead, pulled, blocked, last, hist>>
+view == <<odoc, ohead, sdoc, shead, pulled, blocked, last>>
 
 Init == /\ odoc = "public" /\ ohead = 0 /\ sdoc = "public" /\ shead = 0 /\ pulled = "public"
-        /\ last = "none" /\ hist = <<>>
+        /\ blocked = FALSE /\ last = "none" /\ hist = <<>>
 Log(op) == Len(hist) < MaxOps /\ hist' = Append(hist, op)
 
 \* the requester is neither a delegate nor the seed
@@ -45,13 +54,13 @@ Visible(v) == v \in {"public", "both"}
 Edit(v) == /\ v \in Vis /\ v # odoc
            /\ odoc' = v /\ last' = "none"
            /\ Log(<<"edit", v>>)
-           /\ UNCHANGED <<ohead, sdoc, shead, pulled>>
+           /\ UNCHANGED <<ohead, sdoc, shead, pulled, blocked>>
 
 \* the owner commits to the default branch
 Commit == /\ ohead < 2
           /\ ohead' = ohead + 1 /\ last' = "none"
           /\ Log(<<"commit">>)
-          /\ UNCHANGED <<odoc, sdoc, shead, pulled>>
+          /\ UNCHANGED <<odoc, sdoc, shead, pulled, blocked>>
 
 \* the seed pulls from the owner (it is always allowed to: it is on every allow list)
 Pull == /\ shead' = ohead
@@ -59,18 +68,28 @@ Pull == /\ shead' = ohead
         /\ sdoc' = IF "id-with-head" \in Dev /\ shead = ohead THEN sdoc ELSE odoc
         /\ last' = "none"
         /\ Log(<<"pull">>)
-        /\ UNCHANGED <<odoc, ohead>>
+        /\ UNCHANGED <<odoc, ohead, blocked>>
 
-\* the requester fetches from the seed: served iff the seed's stored document allows it
-Request == /\ last' = IF Visible(sdoc) THEN "served" ELSE "refused"
-           /\ Log(<<"request">>)
-           /\ UNCHANGED <<odoc, ohead, sdoc, shead, pulled>>
+\* the seed blocks the repository (`rad block`): the repository stays in its storage
+Block == /\ ~blocked
+         /\ blocked' = TRUE /\ last' = "none"
+         /\ Log(<<"block">>)
+         /\ UNCHANGED <<odoc, ohead, sdoc, shead, pulled>>
 
-Next == (\E v \in Vis : Edit(v)) \/ Commit \/ Pull \/ Request
+\* the requester fetches from the seed: served iff the seed's policy and its stored document allow it.
+\* locked: another connection holds the write lock of the policy database for longer than the reader
+\* waits, so the policy lookup fails -- which must refuse
+Request(locked) ==
+    /\ LET policyAllows == IF locked THEN "fail-open" \in Dev ELSE ~blocked IN
+       last' = IF policyAllows /\ Visible(sdoc) THEN "served" ELSE "refused"
+    /\ Log(<<"request", IF locked THEN "locked" ELSE "free">>)
+    /\ UNCHANGED <<odoc, ohead, sdoc, shead, pulled, blocked>>
+
+Next == (\E v \in Vis : Edit(v)) \/ Commit \/ Pull \/ Block \/ (\E k \in BOOLEAN : Request(k))
 Spec == Init /\ [][Next]_vars
 
 \* the seed decides by the document it last pulled
 FreshIdentity == sdoc = pulled
 \* C12 for the requester: data is served only if the document the seed last pulled allows it
-ServedOnlyIfAllowed == last = "served" => Visible(pulled)
+ServedOnlyIfAllowed == last = "served" => (Visible(pulled) /\ ~blocked)
 =============================================================================
